@@ -965,4 +965,26 @@ func rulesTranslatePanics(c *Ctx, r *Report) {
 		})
 	}
 	r.floor("TR-PANICS", n, 2, "explicit panics of Translate (length, table miss)")
+	// TranslateReadingFrames refuses nothing itself: it has no explicit panic of its own (what Translate refuses in
+	// a frame is refused there; a check of the whole sequence up front also refuses bases that lie in no frame)
+	if rf := c.fn("sequtil", "TranslateReadingFrames"); rf != nil {
+		var ps []string
+		for _, f := range c.stageFuncs(rf) {
+			if f == root {
+				continue
+			}
+			instrs(f, func(in ssa.Instruction) {
+				if pn, ok := in.(*ssa.Panic); ok {
+					pos := c.pos(pn.Pos())
+					if pos == "" {
+						pos = c.pos(returnPos(pn.Block(), pn))
+					}
+					ps = append(ps, fname(f)+" at "+pos)
+				}
+			})
+		}
+		r.check(len(ps) == 0, "TR-PANICS", fname(rf), "no refusal of its own", c.pos(rf.Pos()),
+			"TranslateReadingFrames contains no explicit panic: the only refusals are Translate's, frame by frame",
+			fmt.Sprintf("TranslateReadingFrames panics explicitly (%v): sequences are refused that the frame law translates (a short sequence whose bases lie in no whole codon)", ps))
+	}
 }
